@@ -33,7 +33,13 @@ def decorate(rng, src, allow_slashes_in_block=True):
     for line in src.split('\n'):
         toks = TOKEN_RE.findall(line)
         if line.strip().startswith('#'):
-            out.append(line)           # directives stay on their own line
+            # directives stay on their own line; the blank after the directive name may be a TAB or several
+            # blanks, and the line may be indented
+            k = rng.random()
+            if k < 0.25 and ' ' in line.strip():
+                head, rest = line.strip().split(' ', 1)
+                line = rng.choice(['', '  ', '\t']) + head + rng.choice(['\t', '  ', ' \t ']) + rest
+            out.append(line)
             continue
         buf = []
         prev = None
